@@ -59,7 +59,7 @@ pub fn run_script(s: &Script, rep: &mut Report, seen: &mut BTreeSet<Hash>, c07: 
     };
     let ctx = json!({"rich_treasury": s.rich, "g": s.g, "staking": s.staking, "rounds": s.rounds.iter().map(|r| format!("{:?}", r)).collect::<Vec<_>>()});
     let mut produced = 0u64;
-    let cls = |r: &Round| format!("{}{}", match &r.tx { TxKind::None => "none".to_string(), TxKind::PeerConflict(f) => format!("peerconflict{}", f), TxKind::Pay { fee, route, .. } => format!("fee{}route{}", fee, route) }, if r.gt { "+gt" } else { "" });
+    let cls = |r: &Round| format!("{}{}", match &r.tx { TxKind::None => "none".to_string(), TxKind::PeerConflict(f) => format!("peerconflict{}", f), TxKind::PeerBlock(k) => format!("peerblock{}", k), TxKind::Pay { fee, route, .. } => format!("fee{}route{}", fee, route) }, if r.gt { "+gt" } else { "" });
     for (ri, r) in s.rounds.iter().enumerate() {
         if let TxKind::PeerConflict(pfee) = r.tx.clone() {
             let ts0 = p.tip_ts + 2 * hb;
@@ -93,6 +93,63 @@ pub fn run_script(s: &Script, rep: &mut Report, seen: &mut BTreeSet<Hash>, c07: 
                     }
                 }
             }
+        }
+        if let TxKind::PeerBlock(who) = r.tx.clone() {
+            // another producer's round: its node holds the same chain, pools one payment and
+            // bundles (and stakes) with its own wallet; the node under test and the twin adopt it
+            let ts = p.tip_ts + r.dt_half_hb * hb / 2;
+            rep.transitions += 1;
+            let who = crate::seams::key(who);
+            let mut pn = LedgerNode::new(who, p.cfg.clone());
+            for b in p.chain.iter() {
+                let _ = pn.add_block_bytes(b);
+            }
+            // (the payment is not signed by the producing key: its wallet only knows the
+            // transactions it made itself)
+            let payer = if who.public == crate::seams::key(1).public { 2 } else { 1 };
+            if let Some(t) = p.make_tx(&TxKind::Pay { payer, fee: 2_000, route: 0 }, ts) {
+                let bc = pn.blockchain.clone();
+                let mp = pn.mempool.clone();
+                let _ = crate::exec::run(async move {
+                    let bc = bc.read().await;
+                    let mut mp = mp.write().await;
+                    mp.add_transaction_if_validates(t, &bc).await;
+                });
+            }
+            let gt = if r.gt {
+                let mut t = golden_ticket_tx(p.tip_hash, p.tip_difficulty, &who, 0);
+                t.generate(&who.public, 0, 0);
+                Some(t)
+            } else {
+                None
+            };
+            let bc = pn.blockchain.clone();
+            let mp = pn.mempool.clone();
+            let cfg = p.cfg.clone();
+            let storage = &pn.storage;
+            let made = crate::exec::run(async move {
+                let bc = bc.read().await;
+                let mut mp = mp.write().await;
+                mp.bundle_block(&bc, ts, gt, &cfg, storage).await
+            });
+            match made {
+                Outcome::Done(Some(b)) => {
+                    let bytes = block_bytes(&b);
+                    let ra = p.node.add_block_bytes(&bytes);
+                    let _ = p.twin.add_block_bytes(&bytes);
+                    if matches!(ra, Outcome::Done(AddRes::AddedLongest)) {
+                        let mut chain = p.chain.clone();
+                        chain.push(bytes);
+                        crate::props::c13::set_chain(&mut p, chain);
+                        rep.outcome("peer-produced-block-adopted");
+                    } else {
+                        rep.outcome("peer-produced-block-not-adopted");
+                    }
+                }
+                Outcome::Done(None) => rep.outcome("peer-produced-no-block"),
+                o => rep.outcome(&format!("peer-producer-abort:{}", o.label().split('@').next().unwrap_or("").trim())),
+            }
+            continue;
         }
         let ts = p.tip_ts + r.dt_half_hb * hb / 2;
         rep.transitions += 1;
@@ -190,7 +247,7 @@ pub fn run_script(s: &Script, rep: &mut Report, seen: &mut BTreeSet<Hash>, c07: 
 pub fn scripts(tier: &Tier) -> Vec<Script> {
     let al = alphabet();
     let mut v = vec![];
-    for (g, staking) in [(3u64, 0u64), (3, 100_000_000), (4, 0)] {
+    for (g, staking) in [(3u64, 0u64), (3, 100_000_000), (4, 0), (3, 20_000_000)] {
         let n = (2 * g + 4) as usize;
         let base: Vec<Round> = (0..n).map(default_round).collect();
         v.push(Script { rich: false, g, staking, rounds: base.clone() });
@@ -216,6 +273,21 @@ pub fn scripts(tier: &Tier) -> Vec<Script> {
                         v.push(Script { rich: false, g, staking, rounds: r });
                     }
                 }
+            }
+        }
+        // runs of one to g+1 consecutive blocks by other producers at every position (the node's
+        // own stake ages untouched across the run; afterwards it produces again)
+        for pos in 1..n.saturating_sub(2) {
+            for k in 1..=(g as usize + 1) {
+                if pos + k + 1 > n {
+                    continue;
+                }
+                let mut r = base.clone();
+                for j in 0..k {
+                    r[pos + j] = Round { tx: TxKind::PeerBlock(if j % 2 == 0 { 2 } else { 1 }), gt: r[pos + j].gt, dt_half_hb: 4 };
+                }
+                r.truncate((pos + k + 3).min(n));
+                v.push(Script { rich: false, g, staking, rounds: r });
             }
         }
         // exhaustive first two rounds from a fresh chain and from a just-wrapped chain
@@ -269,7 +341,12 @@ pub fn scripts(tier: &Tier) -> Vec<Script> {
 
 pub fn main(tier: Tier, _replay: Option<String>) -> i32 {
     let mut rep = Report::new("C07", tier.clone(), "model_checking");
-    let ss = scripts(&tier);
+    let mut ss = scripts(&tier);
+    if let Ok(f) = std::env::var("VERIF_C07_FILTER") {
+        // developer aid: only the scripts whose printed form contains the given text
+        ss.retain(|s| format!("{:?}", s).contains(&f));
+        eprintln!("VERIF_C07_FILTER keeps {} script(s)", ss.len());
+    }
     rep.bounds = json!({"configs": ["g=3", "g=3+staking", "g=4"], "rounds": "2g+4", "alphabet": alphabet().len(), "deviations": if tier.thorough {2} else {1}, "exhaustive_prefix": 2});
     rep.rule = "scripts = default round sequence with <=k deviations from a 48-symbol round alphabet (tx variant x golden ticket x elapsed time) plus the exhaustive product of the first two rounds from a fresh and from a just-wrapped chain; distinct = classes of produced blocks (round class, rebroadcast present, payout present, tx count, elapsed, staking)".into();
     rep.assumptions = vec!["producer key K0, twin key K9; both receive identical bytes; heartbeat 5000 ms".into()];
